@@ -583,6 +583,9 @@ func (g *gen) stmt() []*Node {
 		st = append(st, Def(g.fresh("v"), Call(Id("len"), Id(nm))))
 		return st
 	case c < 20: // expression statement
+		if g.p(0.5) {
+			return []*Node{ExprS(g.expr(kind(g.r.Intn(7)), 0))}
+		}
 		if cl := g.callOf([]kind{kInt, kStr, kBool, kArr}[g.r.Intn(4)], 0); cl != nil {
 			return []*Node{ExprS(cl)}
 		}
